@@ -16,11 +16,11 @@ class C03(ParseProp):
     files = ['tephra-span/src/metrics.rs', 'tephra-span/src/position.rs', 'tephra-span/src/source.rs', 'tephra/src/lexer.rs']
     rule = ('seeded random texts (<= 30 chars) over ASCII, tab, CR, LF, 2-4 byte, double-width and zero-width chars x every '
             'line ending x tab width 1..16 x every permutation and subset of the lexer builder calls (with_column_metrics, '
-            'with_line_ending, with_tab_width, with_filter) x filter on/off x random histories; every position in '
+            'with_line_ending, with_tab_width, with_filter) x filter on/off x scanners measuring token ends by end_position / position_after_str / position_after_chars_matching x random histories; every position in '
             'token_span/parse_span/cursor_pos/peek_token_span after every operation, and (grammar cases) every span inside '
             'values and errors, is compared with the canonical position of its byte offset under the FINAL metrics; '
             'non-trivial = text with a tab or line break or non-ASCII char and >= 2 builder calls; distinct by case')
-    assumptions = ['the harness scanners measure token ends with ColumnMetrics::end_position, as the repo\'s test scanners do']
+    assumptions = ['the harness scanners measure token ends with ColumnMetrics::end_position (plain, counting), with SourceText::position_after_str (literal) or with position_after_chars_matching for whitespace runs (matching); the model measures all of them with end_position']
 
     def cases(self, tier, rng):
         out = []
@@ -44,7 +44,7 @@ class C03(ParseProp):
             for _ in range(3 + r.below(8)):
                 ops.append(r.choice(['next', 'next', 'next', 'peek', 'sublex', ['advupto', 'Comma'], ['clone', 'next', 'peek']]))
             n += 1
-            out.append(parsegen.lex_case('c%d' % n, r.choice(['plain', 'counting']), t, build, ops + ['drain']))
+            out.append(parsegen.lex_case('c%d' % n, r.choice(['plain', 'counting', 'literal', 'literal', 'matching']), t, build, ops + ['drain']))
         return out
 
     def nontrivial(self, ct, it):
